@@ -5,6 +5,24 @@ A grammar: {"id", "prods": [{"name","fields":[{"name","kind","arg","tag"}],"body
 DynRoot{X URoot `@@`} whose union URoot has the single member P0."""
 import json, random, re, sys, itertools
 
+
+def go_quote(s):
+    """Go interpreted string literal for a tag literal"""
+    out = '"'
+    for ch in s:
+        if ch == '"':
+            out += '\\"'
+        elif ch == "\\":
+            out += "\\\\"
+        elif ch == "\n":
+            out += "\\n"
+        elif ch == "\t":
+            out += "\\t"
+        else:
+            out += ch
+    return out + '"'
+
+
 LITS = ["a", "b", "(", ")", "!"]
 
 def lit(s, t=""): return {"op": "lit", "s": s, "t": t, "fs": s.lower()}
@@ -123,7 +141,7 @@ def render(n, out):
     """render to a token list; capture tokens are ('@', field) markers"""
     op = n["op"]
     if op == "lit":
-        out.append('"%s"' % n["s"] + (":" + n["t"] if n["t"] else ""))
+        out.append(go_quote(n["s"]) + (":" + n["t"] if n["t"] else ""))
     elif op == "ref":
         out.append(n["t"])
     elif op == "seq":
@@ -139,7 +157,7 @@ def render(n, out):
     elif op == "grp":
         mod = {"once": "", "opt": "?", "star": "*", "plus": "+", "nonempty": "!"}[n["mode"]]
         k = n["kid"]
-        if n["mode"] == "once" or needs_paren(k) or k["op"] == "grp":
+        if n["mode"] == "once" or needs_paren(k) or k["op"] in ("grp", "neg", "look", "cap"):
             out.append("("); render(k, out); out.append(")" + mod)
         else:
             render(k, out)
